@@ -279,7 +279,8 @@ static std::vector<std::vector<int>> gen_image(Src& s, int n, int m) {
         }
         default: {  // checkerboard patch (touching corners) on a background
             int i0 = static_cast<int>(s.draw(n)), j0 = static_cast<int>(s.draw(m));
-            int h = 1 + static_cast<int>(s.draw(4)), w = 1 + static_cast<int>(s.draw(4));
+            const bool large = s.chance(1, 4);  // large patches: many touching points in one connected cluster
+            int h = 1 + static_cast<int>(s.draw(large ? 11 : 4)), w = 1 + static_cast<int>(s.draw(large ? 11 : 4));
             int bg = static_cast<int>(s.draw(2));
             for (auto& row : img)
                 for (auto& c : row) c = bg && s.chance(3, 4) ? 1 : 0;
@@ -461,6 +462,7 @@ static Truth ground_truth(const Input& in) {
 // Orientation of outer rings as the library fixes it (ProtoRing::fix_direction): positive signed area (counter-clockwise in a
 // coordinate system with x to the right and y up); inner rings the opposite.
 static const int EXPECTED_OUTER_SIGN = 1;
+struct KnownFinding {};  // thrown by check_output when the outcome is exactly an open known finding
 static int g_outer_sign = 0;  // orientation of outer rings, fixed by the library (checked to be one constant)
 
 static void check_output(const Input& in, const Truth& t, const Output& o, const Scene& sc, const std::string& d) {
@@ -474,6 +476,12 @@ static void check_output(const Input& in, const Truth& t, const Output& o, const
             else if (t.odd_vertex) VP_CHECK(o.rec.not_closed > 0, "problem-not-reported", "ring is open but report_ring_not_closed was not called | " << d);
         }
         return;
+    }
+    if (!has_rings && t.split_locations > 16 && o.rec.intersections == 0 && o.rec.not_closed == 0 && vp::known_open("F31")) {
+        // known finding F31: the ring-joining search gives up silently after 20 recursion steps (max_depth); arrangements with more
+        // than 16 touching points can need more. Exactly this outcome is excluded (and counted); anything else is still checked.
+        vp::count("excluded_known_F31_valid_arrangement_not_assembled");
+        throw KnownFinding{};
     }
     VP_CHECK(has_rings && o.returned, "valid-input-rejected", "valid arrangement (" << t.segs.size() << " segments, " << t.split_locations << " touching points) was not assembled"
                                                                                     << " (intersections reported=" << o.rec.intersections << ", not_closed=" << o.rec.not_closed << ") | " << d);
@@ -641,7 +649,8 @@ static void prop(Src& s) {
             return c;
         };
         int rounds = 0;
-        while (count_touch(img) > 14) {
+        static const size_t gen_touch = static_cast<size_t>(std::atoi(vp::extra("max-touch", "28").c_str())) - 2;
+        while (count_touch(img) > gen_touch) {
             if (++rounds > 30) {
                 for (auto& row : img)
                     for (auto& c : row) c = 1;
@@ -649,7 +658,7 @@ static void prop(Src& s) {
             }
             for (int i = 0; i + 1 < sc.n; ++i)
                 for (int j = 0; j + 1 < sc.m; ++j)
-                    if (img[i][j] == img[i + 1][j + 1] && img[i][j + 1] == img[i + 1][j] && img[i][j] != img[i][j + 1] && count_touch(img) > 14) img[i][j] ^= 1;
+                    if (img[i][j] == img[i + 1][j + 1] && img[i][j + 1] == img[i + 1][j] && img[i][j] != img[i][j + 1] && count_touch(img) > gen_touch) img[i][j] ^= 1;
             vp::count("touching_points_reduced");
         }
         image_edges(img, gedges);
@@ -743,7 +752,8 @@ static void prop(Src& s) {
     if (vp::want_desc()) vp::describe(d);
 
     Truth t = ground_truth(in);
-    if (t.split_locations > 16) {
+    static const size_t max_touch = static_cast<size_t>(std::atoi(vp::extra("max-touch", "28").c_str()));
+    if (t.split_locations > max_touch) {
         vp::count("skipped_too_many_touching_points");  // design limit of the assembler's search, not part of the property
         return;
     }
@@ -760,7 +770,11 @@ static void prop(Src& s) {
             std::fprintf(stderr, "\n");
         }
     }
-    check_output(in, t, o, sc, d);
+    try {
+        check_output(in, t, o, sc, d);
+    } catch (const KnownFinding&) {
+        return;
+    }
 
     // metamorphic: re-cut, reverse and shuffle the same segment multiset; the canonical result must be identical
     if (t.valid()) {
@@ -780,7 +794,11 @@ static void prop(Src& s) {
         Truth t2 = ground_truth(in2);
         Output o2 = run_assembler(in2);
         const std::string d2 = d + " || recut: " + describe(sc, in2);
-        check_output(in2, t2, o2, sc, d2);
+        try {
+            check_output(in2, t2, o2, sc, d2);
+        } catch (const KnownFinding&) {
+            return;
+        }
         VP_CHECK(canonical(o) == canonical(o2), "result-depends-on-cutting", "the same segments cut into different ways / member order / directions give a different area:\n" << canonical(o) << "---\n" << canonical(o2) << " | " << d2);
         vp::count("metamorphic_recut");
     }
@@ -790,6 +808,7 @@ static void prop(Src& s) {
     for (const auto& r : o.rings)
         if (!r.first) ++inner;
     vp::count(std::string{"mutation_"} + sc.mutation);
+    if (t.valid()) vp::count(t.split_locations == 0 ? "touching_points_0" : t.split_locations <= 4 ? "touching_points_1-4" : t.split_locations <= 16 ? "touching_points_5-16" : t.split_locations <= 40 ? "touching_points_17-40" : "touching_points_41-100");
     vp::count(t.valid() ? "valid_arrangement" : t.crossing ? "invalid_crossing" : t.odd_vertex ? "invalid_open_ring" : "invalid_empty");
     if (t.valid()) {
         if (o.stats.area_really_complex_case) vp::count("case_really_complex");
@@ -825,8 +844,21 @@ static void run_fixed(const std::vector<std::vector<Pt>>& ways) {
         in.create_empty = ce;
         Truth t = ground_truth(in);
         Output o = run_assembler(in);
-        check_output(in, t, o, sc, describe(sc, in));
+        try {
+            check_output(in, t, o, sc, describe(sc, in));
+        } catch (const KnownFinding&) {
+            vp::fail("valid-input-rejected", "valid arrangement with " + std::to_string(t.split_locations) + " touching points was not assembled (known finding F31) | " + describe(sc, in));
+        }
     }
+}
+
+VP_BUILTIN(F31_valid_arrangement_beyond_search_depth) {
+    // a 5 x 7 checkerboard: 17 squares touching in 24 points, a valid arrangement (every square is an outer ring)
+    std::vector<std::vector<Pt>> ways;
+    for (int i = 0; i < 5; ++i)
+        for (int j = 0; j < 7; ++j)
+            if ((i + j) % 2 == 1) ways.push_back({{i, j}, {i + 1, j}, {i + 1, j + 1}, {i, j + 1}, {i, j}});
+    run_fixed(ways);
 }
 
 VP_BUILTIN(F27_inner_ring_attached_to_touching_outer) {
